@@ -6,7 +6,7 @@ from typing import Any, Dict, List, Optional, Set, Tuple
 
 from ..core import AnalysisError, Report
 from ..pysubst import block_outcomes
-from ..pyfacts import Repo, calls, dotted, norm, param_defaults, param_names, walk_no_nested
+from ..pyfacts import Repo, calls, dotted, guard_clauses_to_blocks, norm, param_defaults, param_names, walk_no_nested
 
 CLI = 'flipjump/flipjump_cli.py'
 QS = 'flipjump/flipjump_quickstart.py'
@@ -344,7 +344,8 @@ def rule_report_only(rep: Report, repo: Repo) -> None:
              'return / raise / break / continue - so the artefacts and the run are the same with and without the flag', 2)
     n = 0
     for rel in (CLI, QS):
-        for fn in [f for f in ast.walk(repo.mod(rel)) if isinstance(f, (ast.FunctionDef, ast.AsyncFunctionDef))]:
+        for fn0 in [f for f in ast.walk(repo.mod(rel)) if isinstance(f, (ast.FunctionDef, ast.AsyncFunctionDef))]:
+            fn = guard_clauses_to_blocks(fn0)          # `if silent: return` + rest reads as `if not silent: rest` in a void helper
             for node in ast.walk(fn):
                 if not isinstance(node, ast.If):
                     continue
